@@ -438,16 +438,18 @@ def evaluate(ctx, cases, doc_budget):
     codes = ctx.coq_codes('cases', HEADER, 'case', terms, 'check_case', shard=shard, jobs=14)
     # whole documents: Python comparison on every case, Coq oracle on the differing ones and on a sample
     py_diffs = []
-    doc_jobs = []          # (case index, label, term, signature, what)
+    diff_jobs, sample_jobs = [], []          # (case index, kind, term, from a difference)
     for i, (c, o) in enumerate(zip(cases, obs)):
         diffs = python_side(c, o, tpl, wrappers)
         for kind, doc, inner, sig, what in diffs:
             py_diffs.append((i, sig, what))
-            doc_jobs.append((i, kind, '(%d%%nat, %s, %s)' % (kind, tx(doc), tx(inner)), True))
+            diff_jobs.append((i, kind, '(%d%%nat, %s, %s)' % (kind, tx(doc), tx(inner)), True))
         if i < doc_budget:
             for (kind, _), term in doc_terms_for(o):
-                doc_jobs.append((i, kind, term, False))
-    doc_jobs = doc_jobs[:max(6 * doc_budget, 60)]
+                sample_jobs.append((i, kind, term, False))
+    # the documents that differ from the expected text go to the oracle first (they used to be cut off by the budget of the
+    # sample when they came late in the run: seed C19-S), then the sample
+    doc_jobs = diff_jobs[:120] + sample_jobs[:max(6 * doc_budget, 60)]
     doc_codes = ctx.coq_codes('docs', HEADER, 'doc_case', [j[2] for j in doc_jobs], 'check_doc', shard=6, jobs=14) if doc_jobs else []
     return obs, codes, py_diffs, doc_jobs, doc_codes
 
